@@ -344,6 +344,35 @@ func guarded(f routingCall) (b []byte, err error, panicked bool) {
 	return
 }
 
+// outputs handed to the caller must stay what they were: every returned routing key is kept (the very
+// slice the driver returned, plus a private copy) and compared again at the end of the run, after
+// thousands of further calls - a key that aliases driver-owned reusable memory shows up here.
+type retained struct {
+	idx        int
+	live, copy []byte
+}
+
+var retainedKeys []retained
+
+func retain(idx int, b []byte) {
+	if len(b) > 0 {
+		retainedKeys = append(retainedKeys, retained{idx, b, append([]byte(nil), b...)})
+	}
+}
+
+func checkRetained(o *hlib.Out) {
+	bad := 0
+	for _, r := range retainedKeys {
+		if !bytes.Equal(r.live, r.copy) {
+			bad++
+			if bad <= 3 {
+				o.Violate(r.idx, "routing-key-mutated-after-return", "", fmt.Sprintf("routing key returned as %x now reads %x: later calls overwrote memory handed to the caller", r.copy, r.live), nil)
+			}
+		}
+	}
+	o.Extra["retained_keys_rechecked"] = len(retainedKeys)
+}
+
 func main() {
 	selfTest()
 	o := hlib.Init("C09")
@@ -360,7 +389,8 @@ func main() {
 	if e1 != nil || e2 != nil || e3 != nil {
 		// the standard partitioner class names are no longer recognised: every token-aware route is lost
 		o.Violate(-1, "partitioner-select", "", fmt.Sprintf("standard partitioner names rejected: %v %v %v", e1, e2, e3), nil)
-		o.Finish("From GocqlV Require Import Lib.Base C09.Model C09.Corr.", "C09.Corr.case", "C09.Corr.run")
+		checkRetained(o)
+	o.Finish("From GocqlV Require Import Lib.Base C09.Model C09.Corr.", "C09.Corr.case", "C09.Corr.run")
 		return
 	}
 
@@ -788,6 +818,7 @@ func main() {
 			info = hlib.Some(hlib.List(comps))
 		}
 		idx := o.Case("create-routing-key", !isNil && ncomp > 0, fmt.Sprintf("CCreateRK %s %s %s", info, hlib.Z(int64(nvals)), rkTerm(b, err, pan)))
+		retain(idx, b)
 		if clean {
 			routingMonitor(o, idx, serial, b, err, pan)
 		}
@@ -856,6 +887,7 @@ func main() {
 		o.Count("search-keys")
 	}
 
+	checkRetained(o)
 	o.Finish("From GocqlV Require Import Lib.Base C09.Model C09.Corr.", "C09.Corr.case", "C09.Corr.run")
 }
 
@@ -1079,6 +1111,7 @@ func sessionCase(o *hlib.Out, i int) {
 		}
 		b, err, pan := guarded(q.GetRoutingKey)
 		idx := o.Case("query-get-routing-key", colCount > 0, fmt.Sprintf("CGetRK %s %s %s %s", optBytes(explicit), hlib.Bool(binding), common, rkTerm(b, err, pan)))
+		retain(idx, b)
 		if regular {
 			if len(serial) == 1 && serial[0] == nil && b == nil && err == nil && !pan {
 				// a nil value for a single key column: no routing key; nothing to compare
@@ -1113,6 +1146,7 @@ func sessionCase(o *hlib.Out, i int) {
 		}
 		b, err, pan := guarded(bt.GetRoutingKey)
 		idx := o.Case("batch-get-routing-key", colCount > 0, fmt.Sprintf("CBatchRK %s %s %s %s %s", optBytes(explicit), hlib.Bool(hasEntries), hlib.Bool(binding), common, rkTerm(b, err, pan)))
+		retain(idx, b)
 		if regular && hasEntries {
 			if len(serial) == 1 && serial[0] == nil && b == nil && err == nil && !pan {
 			} else {
